@@ -155,7 +155,7 @@ CHECKS = {
             "Plus hold histories: a value obtained through load() kept as a plain Value while its importing module is dropped (unfrozen, "
             "or frozen and the frozen module dropped) and the exporters are dropped. "
             "Dropped arenas are overwritten (hook), so a missing heap reference is a crash or a wrong read.",
-            "Histories with more than 5/6 droppable objects permute only the newest 5/6. Cross-thread drops are covered by C20, not here.",
+            "Histories with more than 5 droppable objects permute only the newest 5. Cross-thread drops are covered by C20, not here.",
             "DESIGN.md#c13"),
     "C14": ("exploration",
             "enumeration of a finite configuration set (hash seed x ASLR x allocation noise x thread x repetition) for every program; byte-identical-output differential; canaries prove the configurations differ",
